@@ -45,7 +45,7 @@ impl Property for C15 {
             real: &["src/hot_reloading/mod.rs (HotReloader::start, hot_reloading_thread loop, Answers)", "src/hot_reloading/paths.rs", "src/cache.rs (drop order of AssetCache fields)"],
             stub: &["crossbeam-channel (detsim model; Select::ready reports a disconnected channel as ready, as the real crate documents)", "OS threads and scheduler", "Source (in-memory custom source holding the EventSender)"],
             assumptions: &["'consumes no CPU' = the reloader thread is blocked in the simulator (takes no scheduling point) whenever every other thread is blocked or finished; 'stops' = its thread has finished or is blocked for good"],
-            runs: (12_000, 600_000),
+            runs: (300_000, 9_000_000),
         }
     }
     fn generate(&self, g: &mut SplitMix, k: &mut SplitMix, _tier: Tier) -> (Knobs, Value) {
